@@ -114,6 +114,7 @@ type VC struct {
 	preOnly     bool // applyContract stops after the preconditions (go statements)
 	goalSks     map[string]TV // skolem constants of the goal being translated (by variable name)
 	goalBind    map[string]TV // given terms for quantified variables (instance hints)
+	hintArgs   []TV
 	lastResult  *TV // result of the call just executed (hints placed @after: a call)
 	oracle      bool // replay oracle: recursive spec functions are given as define-fun-rec (they must compute)
 	callPreHit  map[int]int
